@@ -207,7 +207,11 @@ func (s *SMF) finishTempoChanges() {
 
 func (s *SMF) calculateAbsTimes() {
 	var lasttcTick, lasttcTimeMicroSec int64
-	mt := s.TimeFormat.(MetricTicks)
+	mt, isMetric := s.TimeFormat.(MetricTicks)
+	if !isMetric {
+		// absolute times of tempo changes are only defined for metric time
+		return
+	}
 	for _, tc := range s.tempoChanges {
 		diffTicks := tc.AbsTicks - lasttcTick
 
